@@ -636,7 +636,15 @@ func (it *Interp) eval(fr *frame, v ssa.Value, st *State) *Term {
 		return &Term{Op: "closure", K: core.FuncName(f), Fn: f, Bind: bind}
 	case *ssa.Slice:
 		base := it.val(fr, x.X, st)
-		if base.Op == "cell" {
+		// s[:0] - an empty slice whatever it is cut from (make([]T, 0, n), buf[:0])
+		if x.High != nil {
+			if h := it.val(fr, x.High, st); h.IsConst() {
+				if hv, ok := h.IntVal(); ok && hv == 0 {
+					return Leaf("zero", "")
+				}
+			}
+		}
+		if base.Op == "cell" && x.Low == nil && x.High == nil {
 			return &Term{Op: "sliceof", Args: []*Term{base}}
 		}
 		return base
@@ -853,7 +861,28 @@ func (it *Interp) atomicSetting(id string, cal *ssa.Function, args []*Term, st *
 	return false
 }
 
+// pureStd: standard-library callees that neither touch the cache nor decide anything: diagnostics and formatting.
+// Their results stay opaque terms over their arguments (so a value passed through them is still traced).
+func pureStd(id string) bool {
+	for _, p := range []string{"fmt.", "strings.", "strconv.", "errors.", "math.", "unicode/utf8.", "log.Print", "log.Output", "(*log.Logger).Print", "(*log.Logger).Output", "log.Default", "log.New", "os.Getenv", "(*strings.Builder).", "(*bytes.Buffer)."} {
+		if strings.HasPrefix(id, p) {
+			return true
+		}
+	}
+	return false
+}
+
 func (it *Interp) externalUnknown(id string, cal *ssa.Function, args []*Term, st *State, pos string, k cont) {
+	if pureStd(id) {
+		st.nCall++
+		st.Events = append(st.Events, Event{Kind: "diag", N: st.nCall, Name: id, Args: args, Pos: pos})
+		var rets []*Term
+		for i := 0; i < cal.Signature.Results().Len(); i++ {
+			rets = append(rets, &Term{Op: "ext", K: fmt.Sprintf("%s#%d.%d", id, st.nCall, i), Args: args})
+		}
+		k(st, rets)
+		return
+	}
 	{
 		st.nCall++
 		st.Events = append(st.Events, Event{Kind: "extcall", N: st.nCall, Name: id, Args: args, Pos: pos})
